@@ -238,6 +238,21 @@ func c42GenQuery(rg *vkit.Rand, w *c17World, calls *int64) c42Query {
 		if rg.Chance(1, 5) {
 			return q
 		}
+		if rg.Chance(1, 4) {
+			// one tag comparison that several values of the key can satisfy, under a restricted
+			// authorizer: the per-measurement walk over tag values must not stop at a value whose
+			// series are all hidden or deleted
+			if q.Auth == nil {
+				q.Auth = &c42Auth{Salt: rg.Uint64() % 1000, Num: uint64(rg.Range(1, 3)), Den: 4, calls: calls}
+			}
+			k := vkit.Pick(rg, w.Keys)
+			if rg.Chance(1, 4) {
+				q.MeasCond = c17Cmp(k, "!=", tagLit(k))
+			} else {
+				q.MeasCond = c17Cmp(k, vkit.Pick(rg, []string{"=~", "=~", "!~"}), vkit.Pick(rg, c17Regexes))
+			}
+			return q
+		}
 		var gen func(d int) *c17Expr
 		gen = func(d int) *c17Expr {
 			if d == 0 || rg.Chance(1, 2) {
@@ -723,7 +738,7 @@ func TestC42(t *testing.T) {
 		"non-trivial: something must be listed and the world holds a hidden or a deleted series; distinct = hash(world setup, phase, query)")
 	r.Assume("MeasurementNames conditions with negated tag comparisons, comparisons matching the empty string, or AND are bounded (must ⊆ result ⊆ may) because per-series and per-measurement readings differ; everything else is compared exactly",
 		"TagKeys/TagValues entries with an empty key/value list are not listings (the statement executor drops them)")
-	nWorlds := r.N(40, 500)
+	nWorlds := r.N(120, 800)
 	perPhase := r.N(20, 30)
 	var calls int64
 	only := os.Getenv("VERIF_ONLY")
